@@ -35,6 +35,8 @@ type World struct {
 	Opts    spec.WorldOpts
 	termAge map[types.UID]int
 	termMax map[types.UID]int
+	// recreated: terminating pods whose replacement was already created (EarlyRecreate)
+	recreated map[types.UID]bool
 	regen   int
 	lagging []*v1.Pod // pod updates of successful binds that become visible in the next step
 	// Log of what the world did in the last step (for replay files)
@@ -100,12 +102,19 @@ func (w *World) Step() {
 			if w.Opts.MaxTerminateCycles > 0 {
 				w.termMax[p.UID] = w.Rng.IntN(w.Opts.MaxTerminateCycles + 1)
 			}
+			if w.Opts.Closed && w.Opts.EarlyRecreate && p.Namespace != spec.ReservationNS && p.Annotations["pod-group-name"] != "" {
+				w.recreate(p)
+				if w.recreated == nil {
+					w.recreated = map[types.UID]bool{}
+				}
+				w.recreated[p.UID] = true
+			}
 		}
 		if w.termAge[p.UID] >= w.termMax[p.UID] {
 			w.deletePod(p)
 			delete(pods, p.Namespace+"/"+p.Name)
 			w.logf("terminated %s/%s", p.Namespace, p.Name)
-			if w.Opts.Closed && p.Namespace != spec.ReservationNS {
+			if w.Opts.Closed && p.Namespace != spec.ReservationNS && !w.recreated[p.UID] {
 				w.recreate(p)
 			}
 		} else {
